@@ -12,7 +12,7 @@ mkdir -p "$base"
 if [ -d "$base/repo" ]; then git -C /repo worktree remove --force "$base/repo" >/dev/null 2>&1; rm -rf "$base/repo"; fi
 git -C /repo worktree add --detach "$base/repo" HEAD -q || exit 3
 if ! git -C "$base/repo" apply "$patch"; then echo "MUTRUN: patch does not apply"; git -C /repo worktree remove --force "$base/repo"; exit 4; fi
-rsync -a --delete --exclude .git --exclude .work --exclude replays --exclude seeded /verif/ "$base/verif/"
+rsync -a --delete --exclude .git --exclude .work --exclude replays --exclude seeded "${VERIF_SRC:-/verif}/" "$base/verif/"
 sed -i "s#=> /repo#=> $base/repo#" "$base/verif/harness/go.mod"
 for f in "$base"/verif/harness/overlay/*.json; do sed -i "s#\"/repo/#\"$base/repo/#g; s#\"/verif/#\"$base/verif/#g" "$f"; done
 cd "$base/verif" && VERIF_REPO="$base/repo" timeout 3000 ./check "$pid" "$tier" > "$base/out.txt" 2>&1
